@@ -602,6 +602,13 @@ fn config_pool() -> Vec<Sx> {
         cfg("_:", "_:", "_:", &[], false, false, &[("http://example.org/vocab", "ex"), ("http://example.org/terms", "t")], None),
         cfg("_:", "http://example.org", "_:", &[], false, false, &[("http://example.org", "root")], None),
         cfg("_:", "_:", "_:", &["http://example.org/ctx.jsonld"], false, true, &[("http://example.org/vocab/", "exs"), ("http://example.org/vocab", "ex"), ("http://example.org/terms#", "ts"), ("urn:set", "u")], Some("{resource}/{begin}/{end}")),
+        // the W3C context itself among the extra contexts: alone, next to others (first, last), twice; with and without namespaces
+        cfg("_:", "_:", "_:", &[ANNO_CTX], false, false, &[], None),
+        cfg("_:", "_:", "_:", &[ANNO_CTX], false, false, &[("http://ex.org/ns/", "ex")], None),
+        cfg("_:", "_:", "_:", &[ANNO_CTX, "http://example.org/ctx.jsonld"], false, false, &[], None),
+        cfg("_:", "_:", "_:", &["http://example.org/ctx.jsonld", ANNO_CTX], false, true, &[("http://ex.org/ns/", "ex")], None),
+        cfg("_:", "_:", "_:", &[ANNO_CTX, ANNO_CTX], false, false, &[], Some("{resource}/{begin}/{end}")),
+        cfg("_:", "_:", "_:", &[ANNO_CTX, "http://example.org/ctx.jsonld", ANNO_CTX], false, false, &[("http://ex.org/ns/", "ex"), ("_:", "blank")], None),
     ]
 }
 
@@ -878,6 +885,6 @@ pub fn generate(out: &mut Out, tier: &str, seed: u64) {
     }
 }
 
-pub const RULE: &str = "Stores are built through the public API (add_resource, add_dataset, annotate with every selector kind incl. the internal ranged ones that annotate() produces, remove_annotation) and every live annotation is exported with to_webannotation() under a configuration. Exhaustive part: every value of a pool (null, booleans, ints incl. +-(2^62-1), floats on the grid of quarters, 30 strings with quotes, backslashes, all kinds of control characters, DEL/C1, non-BMP, IRIs and near-IRIs, the same scheme x invalid-character strings as for identifiers, datetimes, nested lists) x every one of 10 configurations (prefixes, extra contexts, namespaces, target templates, automatic generated/generator) under a plain key, a namespaced key, a key of the anno namespace and as main-level predicate; every subset of the five main-level predicates x body present/absent x 3 configurations, with and without annotation id; every identifier of a pool of 17 (quotes, backslashes, controls, non-BMP, IRIs, template variables) plus every scheme is_iri() knows and near misses (_ http https urn file _x '_ ') x an invalid character (quote, backslash, control, space; after the colon, in the middle, at the end) as resource, annotation, data set and key identifier in a store with all selector kinds x every configuration; every key of 14 x every set id of 9 x every configuration; the known classes (non-finite floats, configuration strings that need escaping, duplicate member names). Then seeded random stores (1-3 resources, 2-9 annotations with random selector trees up to depth 2, 0-3 data items, removals) under a random configuration. Per exported annotation 5 sub-cases: tree (serde_json on the real output vs intended tree), this development's recogniser vs serde_json on the real output, token-equality of the model's string with the real output, text targets of the view vs annotation.textselections(), source/selector objects of the real output (serde_json) in order vs those text targets, member names of the annotation object and its body expanded through the exported @context vs the full predicate IRIs. Numbers are compared as numbers (integers exactly, also beyond 64 bits); float values include whole floats around and beyond 2^63 of both signs. Non-trivial: at least one export parsed as JSON. distinct = distinct model inputs.";
+pub const RULE: &str = "Stores are built through the public API (add_resource, add_dataset, annotate with every selector kind incl. the internal ranged ones that annotate() produces, remove_annotation) and every live annotation is exported with to_webannotation() under a configuration. Exhaustive part: every value of a pool (null, booleans, ints incl. +-(2^62-1), floats on the grid of quarters, 30 strings with quotes, backslashes, all kinds of control characters, DEL/C1, non-BMP, IRIs and near-IRIs, the same scheme x invalid-character strings as for identifiers, datetimes, nested lists) x every configuration of a pool (prefixes, extra contexts incl. the W3C context itself alone / among others / twice, namespaces with and without trailing separator, target templates, automatic generated/generator) under a plain key, a namespaced key, a key of the anno namespace and as main-level predicate; every subset of the five main-level predicates x body present/absent x 3 configurations, with and without annotation id; every identifier of a pool of 17 (quotes, backslashes, controls, non-BMP, IRIs, template variables) plus every scheme is_iri() knows and near misses (_ http https urn file _x '_ ') x an invalid character (quote, backslash, control, space; after the colon, in the middle, at the end) as resource, annotation, data set and key identifier in a store with all selector kinds x every configuration; every key of 14 x every set id of 9 x every configuration; the known classes (non-finite floats, configuration strings that need escaping, duplicate member names). Then seeded random stores (1-3 resources, 2-9 annotations with random selector trees up to depth 2, 0-3 data items, removals) under a random configuration. Per exported annotation 5 sub-cases: tree (serde_json on the real output vs intended tree), this development's recogniser vs serde_json on the real output, token-equality of the model's string with the real output, text targets of the view vs annotation.textselections(), source/selector objects of the real output (serde_json) in order vs those text targets, member names of the annotation object and its body expanded through the exported @context vs the full predicate IRIs. Numbers are compared as numbers (integers exactly, also beyond 64 bits); float values include whole floats around and beyond 2^63 of both signs. Non-trivial: at least one export parsed as JSON. distinct = distinct model inputs.";
 
 pub const EXHAUSTIVE: bool = true;
